@@ -444,10 +444,20 @@ func (g *qgen) inSub() *Cond {
 	if r.Chance(2, 3) {
 		sub.GroupBy = []GB{{Kind: "dim", Name: d, Args: []string{d}}}
 		if r.Chance(1, 3) {
-			sub.Having = &FX{Kind: "bin", Name: ">", Kids: []*FX{{Kind: "ref", Name: "a"}, {Kind: "const", Const: float64(r.Range(0, 12))}}}
+			d2 := hk.Pick(r, []string{"x", "y", "w"})
+			if d2 != d {
+				sub.GroupBy = append(sub.GroupBy, GB{Kind: "dim", Name: d2, Args: []string{d2}})
+			}
+		}
+		if r.Chance(1, 2) {
+			lhs := &FX{Kind: "ref", Name: hk.Pick(r, []string{"a", "b", "_points"})}
+			sub.Having = &FX{Kind: "bin", Name: hk.Pick(r, []string{">", "<", ">="}), Kids: []*FX{lhs, {Kind: "const", Const: float64(r.Range(0, 20))}}}
 		}
 		if r.Chance(1, 3) {
 			sub.Order = []Ord{{Field: d, Desc: r.Bool()}}
+			if r.Chance(1, 2) {
+				sub.Order = []Ord{{Field: "_points", Desc: true}, {Field: d}}
+			}
 			sub.Limit = r.Range(1, 3)
 		}
 	}
@@ -465,7 +475,7 @@ func (g *qgen) where(sc scope, depth int) *Cond {
 		if depth < 2 {
 			return &Cond{Kind: "not", Kids: []*Cond{g.where(sc, depth+1)}}
 		}
-	case 3, 4:
+	case 3, 4, 5:
 		if sc.table {
 			return g.inSub()
 		}
